@@ -43,3 +43,13 @@ func verifLemmaIdentity90k(v int64) int64 {
 func verifLemmaCodecRoundTrip(c codecs.Codec) codecs.Codec {
 	return codecs.FromFMP4(codecs.ToFMP4(c))
 }
+
+// C04 / C05: two different segments of a stream never share a URI (a listed URI names one segment).
+func verifLemmaSegmentPathDistinct(prefix string, streamID string, a uint64, b uint64, mp4 bool) (string, string) {
+	return segmentPath(prefix, streamID, a, mp4), segmentPath(prefix, streamID, b, mp4)
+}
+
+// C04 / C05: two different parts of a stream never share a URI.
+func verifLemmaPartPathDistinct(prefix string, streamID string, a uint64, b uint64) (string, string) {
+	return partPath(prefix, streamID, a), partPath(prefix, streamID, b)
+}
